@@ -6,6 +6,7 @@ import guards
 CLAIMS = ("R1 TableProvider::scan_knn (the approximate index) is called only from VectorSearchExec::try_index and only past the `vector_search_mode != Indexed => Ok(None)` refusal, and ExecutionConfig::default() selects Exact unless the QE_VECTOR_SEARCH override parses; "
           "R2 the VectorSearch lowering builds its exact fallback from a literal Limit{skip: node.skip, fetch: Some(node.k)} over Sort{order_by: [node.sort_key]} over node.input, hands exactly that plan to VectorSearchExec as fallback, and every operator the Limit arm can return declares one output partition (so execute(0) drains it); "
           "R3 VectorSearchExec::execute reaches the fallback on every path on which try_index yields None, and propagates try_index errors.")
+CLAIMS = CLAIMS + ("; R4 the node the optimizer rule builds carries the ORDER BY key as bound (a clone of the matched SortExpr, so direction AND NULLS placement survive): its sort_key is not rebuilt through a SortExpr constructor, whose defaults differ from the binder's.",)[0]
 NOT_DECIDED = "the optimizer rule's shape matcher (which ORDER BY expressions are recognised as distances); numeric equality of distances."
 
 VS = "physical::operators::vector_search::VectorSearchExec"
@@ -133,3 +134,23 @@ def run(F, R):
         R.check(reached, "C43.R3", "None->fallback", "when the index declines, execute can return without running the exact fallback", ex.loc(fb[0].bb), dict())
         e = k9.kexpr(ex, fb[0].args[0])
         R.check(".fallback" in e, "C43.R3", "fallback-receiver", f"execute(0) receiver is {e}", ex.loc(fb[0].bb), nontrivial=False)
+    sort_key_as_bound(F, R)
+
+def sort_key_as_bound(F, R):
+    R.rule("C43.R4", "K5 provenance", "VectorSearchNode.sort_key built by the rule is a clone of the matched Sort's key")
+    VN = "adt:planner::logical_plan::VectorSearchNode"
+    SEP = "planner::logical_expr::SortExpr"
+    n = 0
+    for g in F.fns_building(VN):
+        if not g.file.startswith("src/optimizer/"):
+            continue
+        for i, j, dst, rv, line in g.stmts():
+            if rv[0] == "agg" and rv[1] == VN:
+                n += 1
+                m = dict(zip(rv[3], rv[2]))
+                built = derives_from(g, [m["sort_key"]], lambda k, x: (k == "call" and x.name.startswith(SEP + "::") and x.name.rsplit("::", 1)[-1] in ("new", "asc", "desc", "nulls_first", "nulls_last", "with_nulls") and x) or None)
+                lit = derives_from(g, [m["sort_key"]], lambda k, x: None)
+                agg_lit = any(rv2[0] == "agg" and rv2[1] == "adt:" + SEP and place_local(dst2) in {place_local(op_place(m["sort_key"]))} for i2, j2, dst2, rv2, l2 in g.stmts() if op_place(m["sort_key"]))
+                from_sort = derives_from(g, [m["sort_key"]], lambda k, x: (k == "place" and any(f_ == "order_by" for f_, a in place_fields(x)) and x) or None)
+                R.check(bool(from_sort) and not built and not agg_lit, "C43.R4", f"{F.bodies[g.path]['name']}:sort_key-as-bound", "the fallback's sort key is rebuilt by the rule (SortExpr::new/asc/desc) instead of being the matched ORDER BY key: the constructor's NULLS FIRST default replaces the binder's NULLS LAST, so rows with a NULL vector (NULL distance) sort ahead of the real neighbours and displace them from the LIMIT", g.loc(i), dict())
+    R.floor("C43.R4", "VectorSearchNode constructions in the optimizer", n, 1)
